@@ -11,6 +11,7 @@
 //!   l a            -> <bytes of OsStr::to_string_lossy a>       (std; checks the UTF-8 model)
 //!   u x            -> 1 | 0                                     (std::str::from_utf8(x).is_ok())
 //!   sp             -> arg::verif::special_chars()
+//!   pqs a          -> <bytes of Path::from(a)> | <Path::from(a).quote()> | <split of that>
 //! C10 commands (w, wj, r, pn, pd, hs): see the comment above `parse_report` below.
 
 use std::ffi::OsString;
@@ -86,6 +87,23 @@ fn c17(cmd: &str, f: &[&str]) -> Option<String> {
                 "1".to_string()
             } else {
                 "0".to_string()
+            }
+        }
+        // second quoting entry point: fclones::Path::quote (used by dry-run scripts and logs).
+        // Path::from normalises the bytes (std::path components); the normal form is printed first.
+        ("pqs", 1) => {
+            let b = parse_bytes_field(f[0]);
+            match catch_unwind(AssertUnwindSafe(|| {
+                let p = path_of(&b);
+                (path_bytes(&p), p.quote())
+            })) {
+                Err(_) => "panic".to_string(),
+                Ok((norm, q)) => format!(
+                    "{} | {} | {}",
+                    bytes_field(&norm),
+                    bytes_field(q.as_bytes()),
+                    show_split(q.as_bytes())
+                ),
             }
         }
         ("sp", 0) => {
